@@ -1,8 +1,8 @@
 """C09 -- returned (omega, eta) satisfy the diffraction condition; no solution is missed"""
 from .common import *
 
-PROVED = ['find_omega_general', 'find_omega']
-BOUNDED = ['find_omega_quart', 'find_omega_wedge']
+PROVED = ['find_omega_general']
+BOUNDED = ['find_omega', 'find_omega_quart', 'find_omega_wedge']
 
 
 def units(tier):
